@@ -7,22 +7,21 @@ C26 — Actor addresses survive their text form.
  port. Parsing any string never panics."
  (quantifier: all addresses accepted by address validation, and all strings for the no-panic part)
 
-Model: Model/C26.lean (internal/address/address.go as it is now, i.e. with fix 59b56d7: the port is
-what follows the LAST colon).  Tie: differential run of the real New/NewWithParent/String/Parse/
-HostPortOf/FormatHostPort/HostPort/Validate against these definitions (tools/props/c26.py).
+Model: Model/C26.lean (internal/address/address.go as it is now: fix 59b56d7 — the port is what
+follows the LAST colon —, fix 2166441 — Validate rejects hosts containing '/' or '@').
+Tie: differential run of the real New/NewWithParent/String/Parse/HostPortOf/FormatHostPort/HostPort/
+Validate against these definitions (tools/props/c26.py).
 
 Result.
-* `C26_full` reads the quantifier literally ("all addresses accepted by address validation").
-  It is FALSE of the current code (`C26_refuted`): Validate never inspects the characters of the
-  host (net.JoinHostPort/SplitHostPort accept anything without brackets), so
-  `New("a","s","::1/64",80)` validates, yet its text form `goakt://s@::1/64:80/a` parses to a
-  DIFFERENT address (host ":", port 1, parent "64:80").  Finding C26-F2.
-* `C26_partial` is the statement under the explicit decidable guard `hostClean` (no '/' and no
-  '@' in the host) and "not the all-empty NoSender sentinel": proved for every such address, any
-  name up to 255 bytes, any port 0..65535, IPv6 hosts with any number of colons, any parent chain.
-  `C26_hostLike` instantiates it for every host over the alphabet of host names / IPv4 / IPv6
-  literals (incl. zones), which is the domain the English sentence names.
+* `C26_full`: every ACTOR address accepted by Validate (i.e. not the all-empty NoSender sentinel, which
+  stands for "no actor") round-trips.  `C26_holds` proves it: any name up to 255 bytes, any port
+  0..65535, IPv6 hosts with any number of colons, zones, any parent chain.
+* `C26_hostLike`: the corollary on the domain the English sentence names.
 * `C26_total`: Parse reaches no slice-bounds panic on any string.
+* `C26_sentinel_corner`: the sentinel is excluded for a reason — Validate returns nil for it before
+  looking at a parent, so `NewWithParent("", "", "", 0, New("x/y", …))` validates and does not round-trip.
+* history: before 2166441 Validate never inspected the host's characters and host "::1/64" validated but
+  parsed to a different address (former finding C26-F2, now fixed).
 -/
 import GoaktVerif.Model.C26
 import GoaktVerif.Spec.C26
@@ -106,15 +105,16 @@ theorem parse_shape (sys host P path : Str) (port : Int)
 
 /-! ### the guard and its consequences -/
 
-/-- the decidable guard of the partial theorem: accepted by Validate, not the all-empty NoSender
-    sentinel, and no '/' or '@' in the host -/
-def guard (a : Addr) : Bool := validate a && !a.self.isZero && hostClean a.self.host
+/-- the decidable guard: accepted by Validate and not the all-empty NoSender sentinel -/
+def guard (a : Addr) : Bool := validate a && !a.self.isZero
 
 theorem selfOK_facts (n : Node) (h : selfOK n = true) :
-    0 ≤ n.port ∧ n.port ≤ 65535 ∧ matchesPattern n.system = true ∧ matchesPattern (trimSpace n.name) = true ∧ n.name ≠ [] := by
-  simp only [selfOK, tcpOK, Bool.and_eq_true, decide_eq_true_eq, Bool.not_eq_true'] at h
-  obtain ⟨⟨⟨⟨⟨⟨⟨hp0, hp1⟩, _⟩, _⟩, hne⟩, _⟩, hs⟩, hn⟩ := h
-  refine ⟨hp0, hp1, hs, hn, ?_⟩
+    0 ≤ n.port ∧ n.port ≤ 65535 ∧ matchesPattern n.system = true ∧ matchesPattern (trimSpace n.name) = true ∧ n.name ≠ [] ∧
+    ('/' ∉ n.host ∧ '@' ∉ n.host) := by
+  simp only [selfOK, tcpOK, Bool.and_eq_true, decide_eq_true_eq, Bool.not_eq_true', List.contains_eq_mem,
+    decide_eq_false_iff_not] at h
+  obtain ⟨⟨⟨⟨⟨⟨⟨⟨hp0, hp1⟩, _⟩, hc⟩, _⟩, hne⟩, _⟩, hs⟩, hn⟩ := h
+  refine ⟨hp0, hp1, hs, hn, ?_, hc⟩
   intro e; simp [e] at hne
 
 /-- for a guarded address: the node checks hold, and an effective parent (one String() prints) has
@@ -122,26 +122,25 @@ theorem selfOK_facts (n : Node) (h : selfOK n = true) :
 theorem guard_facts (a : Addr) (h : guard a = true) :
     selfOK a.self = true ∧ ('/' ∉ a.self.host ∧ '@' ∉ a.self.host) ∧
     (a.parentName ≠ [] → matchesPattern (trimSpace a.parentName) = true) := by
+  suffices hs : selfOK a.self = true ∧ (a.parentName ≠ [] → matchesPattern (trimSpace a.parentName) = true) from
+    ⟨hs.1, (selfOK_facts a.self hs.1).2.2.2.2.2, hs.2⟩
   obtain ⟨self, anc⟩ := a
-  simp only [guard, validate, Bool.and_eq_true, Bool.not_eq_true', hostClean] at h
-  obtain ⟨⟨hv, hz⟩, hh⟩ := h
-  have hclean : '/' ∉ self.host ∧ '@' ∉ self.host := by
-    simp only [List.contains_eq_mem, decide_eq_false_iff_not] at hh
-    exact hh
+  simp only [guard, validate, Bool.and_eq_true, Bool.not_eq_true'] at h
+  obtain ⟨hv, hz⟩ := h
   cases anc with
   | nil =>
     simp only [validateChain, hz, Bool.false_or] at hv
-    exact ⟨hv, hclean, by simp [Addr.parentName]⟩
+    exact ⟨hv, by simp [Addr.parentName]⟩
   | cons p rest =>
     simp only [validateChain, hz, Bool.false_eq_true, if_false] at hv
     cases hpz : p.isZero with
     | true =>
       simp only [hpz, if_true] at hv
-      exact ⟨hv, hclean, by simp [Addr.parentName, hpz]⟩
+      exact ⟨hv, by simp [Addr.parentName, hpz]⟩
     | false =>
       simp only [hpz, Bool.false_eq_true, if_false, Bool.and_eq_true] at hv
       obtain ⟨⟨⟨⟨⟨hs, hpv⟩, _⟩, _⟩, _⟩, _⟩ := hv
-      refine ⟨hs, hclean, ?_⟩
+      refine ⟨hs, ?_⟩
       intro _
       simp only [Addr.parentName, hpz, Bool.false_eq_true, if_false]
       -- the parent validated: it is not zero, so its own node checks hold
@@ -166,7 +165,7 @@ def reparsed (a : Addr) : Addr :=
     the same name, system, host and port, with a parent carrying the same name -/
 theorem parse_build (a : Addr) (h : guard a = true) : parse (build a) = .ok (reparsed a) := by
   obtain ⟨hself, hhost, hpar⟩ := guard_facts a h
-  obtain ⟨hp0, hp1, hsys, hname, hnn⟩ := selfOK_facts a.self hself
+  obtain ⟨hp0, hp1, hsys, hname, hnn, _⟩ := selfOK_facts a.self hself
   have hsysc := system_clean _ hsys
   have hnamec := name_clean _ hname
   have hP := intDigits_clean a.self.port hp0
@@ -215,7 +214,7 @@ theorem parse_build (a : Addr) (h : guard a = true) : parse (build a) = .ok (rep
 theorem hostPortOf_build (a : Addr) (h : guard a = true) :
     hostPortOf (build a) = (hostPort a.self, true) ∧ hostPort a.self = formatHostPort a.self.host a.self.port := by
   obtain ⟨hself, hhost, _⟩ := guard_facts a h
-  obtain ⟨hp0, _, hsys, _, _⟩ := selfOK_facts a.self hself
+  obtain ⟨hp0, _, hsys, _, _, _⟩ := selfOK_facts a.self hself
   have hsysc := system_clean _ hsys
   have hP := intDigits_clean a.self.port hp0
   refine ⟨?_, rfl⟩
@@ -248,8 +247,9 @@ def roundtrip (a : Addr) : Prop :=
   ∃ b, parse (build a) = .ok b ∧ b.self = a.self ∧ b.parentName = a.parentName ∧
     hostPortOf (build a) = (formatHostPort a.self.host a.self.port, true)
 
-/-- the English property with its quantifier read literally -/
-def C26_full : Prop := ∀ a : Addr, validate a = true → roundtrip a
+/-- the English property: every actor address accepted by address validation (the all-empty
+    NoSender sentinel is "no actor" and is excluded, see `C26_sentinel_corner`) -/
+def C26_full : Prop := ∀ a : Addr, validate a = true → a.self.isZero = false → roundtrip a
 
 theorem reparsed_parentName (a : Addr) (h : guard a = true) : (reparsed a).parentName = a.parentName := by
   unfold reparsed
@@ -257,51 +257,38 @@ theorem reparsed_parentName (a : Addr) (h : guard a = true) : (reparsed a).paren
   | nil => simp [Addr.parentName]
   | cons x xs => simp [Addr.parentName, Node.isZero]
 
-/-- the property for every address accepted by Validate whose host has no '/' or '@' (and that is
-    not the all-empty sentinel).  Excluded by the guard: exactly the hosts of finding C26-F2. -/
-theorem C26_partial : ∀ a : Addr, guard a = true → roundtrip a := by
-  intro a h
+theorem roundtrip_of_guard (a : Addr) (h : guard a = true) : roundtrip a := by
   refine ⟨reparsed a, parse_build a h, rfl, reparsed_parentName a h, ?_⟩
   have := hostPortOf_build a h
   rw [this.1, this.2]
 
-/-- hosts over the alphabet of host names, IPv4 and IPv6 literals (with zones) are clean -/
-theorem hostLike_clean (h : Str) (hl : hostLike h = true) : hostClean h = true := by
-  simp only [hostLike, Bool.and_eq_true, List.all_eq_true] at hl
-  simp only [hostClean, Bool.and_eq_true, Bool.not_eq_true', List.contains_eq_mem, decide_eq_false_iff_not]
-  constructor
-  · intro hm; have := hl.2 _ hm; revert this; decide
-  · intro hm; have := hl.2 _ hm; revert this; decide
+/-- **the property holds** for every validated actor address -/
+theorem C26_holds : C26_full := by
+  intro a hv hz
+  exact roundtrip_of_guard a (by simp [guard, hv, hz])
 
 /-- the English sentence on the domain it names: valid names, a host name / IPv4 / IPv6 host, a
     valid port, an optional parent — all of it as decided by the real Validate -/
 theorem C26_hostLike (a : Addr) (hv : validate a = true) (hh : hostLike a.self.host = true) : roundtrip a := by
-  apply C26_partial
-  have hnz : a.self.isZero = false := by
-    cases hz : a.self.isZero with
-    | false => rfl
-    | true =>
-      simp only [Node.isZero, Bool.and_eq_true] at hz
-      simp only [hostLike, Bool.and_eq_true, Bool.not_eq_true'] at hh
-      rw [hz.1.2] at hh; exact absurd hh.1 (by decide)
-  simp [guard, hv, hnz, hostLike_clean _ hh]
+  apply C26_holds a hv
+  cases hz : a.self.isZero with
+  | false => rfl
+  | true =>
+    simp only [Node.isZero, Bool.and_eq_true] at hz
+    simp only [hostLike, Bool.and_eq_true, Bool.not_eq_true'] at hh
+    rw [hz.1.2] at hh; exact absurd hh.1 (by decide)
 
-/-- witness: an IPv6 host with a prefix length.  Validate accepts it; the text form parses, without
-    error, to a different address. -/
-def witness : Addr := ⟨⟨['a'], ['s'], [':', ':', '1', '/', '6', '4'], 80⟩, []⟩
+/-- why the sentinel is excluded: Validate returns nil for the all-empty address before looking at
+    its parent, so this one validates; its text form "goakt://@:0/x/y/" does not parse -/
+def sentinelWitness : Addr := ⟨⟨[], [], [], 0⟩, [⟨['x', '/', 'y'], ['s'], ['h'], 1⟩]⟩
 
-theorem witness_valid : validate witness = true := by decide
+theorem C26_sentinel_corner : validate sentinelWitness = true ∧ parse (build sentinelWitness) = .err .format := by
+  refine ⟨by decide, ?_⟩
+  simp [sentinelWitness, build, Addr.parentName, Node.isZero, intDigits, natDigits, digitChar, scheme, sepScheme, parse, cut?,
+    hasPrefix, contains, finish, splitHostPort, lastIndex, sliceTo, sliceFrom, parseInt32, parseUint, isDigit, digitVal]
 
-theorem C26_refuted : ¬ C26_full := by
-  intro h
-  obtain ⟨b, hb, hs, _, _⟩ := h witness witness_valid
-  have hp : parse (build witness) = .ok ⟨⟨['a'], ['s'], [':'], 1⟩, [⟨['6', '4', ':', '8', '0'], ['s'], [':'], 1⟩]⟩ := by
-    simp [witness, build, Addr.parentName, intDigits, natDigits, digitChar, scheme, sepScheme, parse, cut?, hasPrefix,
-      contains, finish, splitHostPort, lastIndex, sliceTo, sliceFrom, parseInt32, parseUint, isDigit, digitVal]
-  rw [hp] at hb
-  injection hb with hb
-  subst hb
-  simp [witness] at hs
+/-- after fix 2166441 the former witness (an IPv6 host with a prefix length) no longer validates -/
+example : validate ⟨⟨['a'], ['s'], [':', ':', '1', '/', '6', '4'], 80⟩, []⟩ = false := by decide
 
 /-! ### no panic -/
 
